@@ -66,3 +66,79 @@ contract(f"{R}::AccessControlList.is_permitted",
          loops={0: {"inv": [("scan", "none_match_before(self, frame, _i)"),
                             ("rule_none", "rule is None"),
                             ("counts", "forall_obj(r, ACLRule, r.match_count == old(r.match_count))")]}})
+
+# ---- adding / removing rules ("changes only the addressed position") -------------------------------------------
+spec("acl_shape(acl)", "len(acl._acl) == acl.max_acl_rules - 1")   # established by AccessControlList.__init__
+
+contract(f"{R}::AccessControlList.add_rule",
+         props=["C07"],
+         requires=["acl_shape(self)"],
+         ensures=[("returns_true", "result == True"),
+                  ("fresh_rule", "self._acl[position] is not None and fresh(self._acl[position])"),
+                  ("fields", "self._acl[position].action == action and self._acl[position].protocol == protocol"
+                             " and self._acl[position].src_ip_address == src_ip_address"
+                             " and self._acl[position].src_wildcard_mask == src_wildcard_mask"
+                             " and self._acl[position].dst_ip_address == dst_ip_address"
+                             " and self._acl[position].dst_wildcard_mask == dst_wildcard_mask"
+                             " and self._acl[position].src_port == src_port and self._acl[position].dst_port == dst_port"
+                             " and self._acl[position].match_count == 0"),
+                  ("only_position", "len(self._acl) == old(len(self._acl)) and forall(q, 0, len(self._acl),"
+                                    " implies(q != position, self._acl[q] is old(self._acl[q])))"),
+                  ("in_range", "0 <= position and position < len(self._acl)")],
+         raises={"ValueError": "not (0 <= position and position < self.max_acl_rules)",
+                 # robustness note F9: the bound test admits position == max_acl_rules-1 == len(_acl); CPython raises
+                 # IndexError there instead of the documented ValueError.  Nothing is changed, so C07 still holds.
+                 "IndexError": "position == self.max_acl_rules - 1"},
+         raises_ensures=[("nothing_changed", "len(self._acl) == old(len(self._acl)) and forall(q, 0, len(self._acl), self._acl[q] is old(self._acl[q]))")],
+         modifies=["self._acl[*]"], allocates=True)
+
+contract(f"{R}::AccessControlList.remove_rule",
+         props=["C07"],
+         requires=["acl_shape(self)"],
+         ensures=[("returns_true", "result == True"),
+                  ("removed", "self._acl[position] is None"),
+                  ("only_position", "len(self._acl) == old(len(self._acl)) and forall(q, 0, len(self._acl),"
+                                    " implies(q != position, self._acl[q] is old(self._acl[q])))"),
+                  ("in_range", "0 <= position and position < len(self._acl)")],
+         raises={"ValueError": "not (0 <= position and position < self.max_acl_rules - 1)"},
+         raises_ensures=[("nothing_changed", "len(self._acl) == old(len(self._acl)) and forall(q, 0, len(self._acl), self._acl[q] is old(self._acl[q]))")],
+         modifies=["self._acl[*]"], allocates=True)
+
+# ---- the request API used by agent actions ----------------------------------------------------------------------
+# positional arguments documented in AccessControlList._init_request_manager:
+#   0 action name, 1 protocol ('ALL' = any), 2 src ip ('ALL'), 3 src wildcard ('NONE'), 4 src port ('ALL'),
+#   5 dst ip ('ALL'), 6 dst wildcard ('NONE'), 7 dst port ('ALL'), 8 position
+I = "src/primaite/interface/request.py"
+inline(f"{I}::RequestResponse.from_bool")
+
+contract(f"{R}::AccessControlList._init_request_manager#add_rule",
+         props=["C07"], region=("request", "add_rule"), types={"request": "List[Any]", "context": "Any"},
+         requires=["acl_shape(self)", "len(request) == 9", "request is not self._acl"],
+         ensures=[("status", 'result.status == "success"'),
+                  ("fresh_rule", "self._acl[int(request[8])] is not None and fresh(self._acl[int(request[8])])"),
+                  ("action", 'self._acl[int(request[8])].action == (ACLAction.PERMIT if request[0] == "PERMIT" else ACLAction.DENY)'),
+                  ("protocol", 'self._acl[int(request[8])].protocol == (None if request[1] == "ALL" else request[1])'),
+                  ("src_ip", 'self._acl[int(request[8])].src_ip_address == (None if request[2] == "ALL" else IPv4Address(request[2]))'),
+                  ("src_wildcard", 'self._acl[int(request[8])].src_wildcard_mask == (None if request[3] == "NONE" else IPv4Address(request[3]))'),
+                  ("src_port", 'self._acl[int(request[8])].src_port == (None if request[4] == "ALL" else request[4])'),
+                  ("dst_ip", 'self._acl[int(request[8])].dst_ip_address == (None if request[5] == "ALL" else IPv4Address(request[5]))'),
+                  ("dst_wildcard", 'self._acl[int(request[8])].dst_wildcard_mask == (None if request[6] == "NONE" else IPv4Address(request[6]))'),
+                  ("dst_port", 'self._acl[int(request[8])].dst_port == (None if request[7] == "ALL" else request[7])'),
+                  ("only_position", "len(self._acl) == old(len(self._acl)) and forall(q, 0, len(self._acl),"
+                                    " implies(q != int(request[8]), self._acl[q] is old(self._acl[q])))")],
+         raises={"KeyError": 'request[0] != "PERMIT" and request[0] != "DENY"',
+                 "ValueError": "not (0 <= int(request[8]) and int(request[8]) < self.max_acl_rules)",
+                 "IndexError": "int(request[8]) == self.max_acl_rules - 1"},
+         raises_ensures=[("nothing_changed", "len(self._acl) == old(len(self._acl)) and forall(q, 0, len(self._acl), self._acl[q] is old(self._acl[q]))")],
+         modifies=["self._acl[*]"], allocates=True)
+
+contract(f"{R}::AccessControlList._init_request_manager#remove_rule",
+         props=["C07"], region=("request", "remove_rule"), types={"request": "List[Any]", "context": "Any"},
+         requires=["acl_shape(self)", "len(request) == 1", "request is not self._acl"],
+         ensures=[("status", 'result.status == "success"'),
+                  ("removed", "self._acl[int(request[0])] is None"),
+                  ("only_position", "len(self._acl) == old(len(self._acl)) and forall(q, 0, len(self._acl),"
+                                    " implies(q != int(request[0]), self._acl[q] is old(self._acl[q])))")],
+         raises={"ValueError": "not (0 <= int(request[0]) and int(request[0]) < self.max_acl_rules - 1)"},
+         raises_ensures=[("nothing_changed", "len(self._acl) == old(len(self._acl)) and forall(q, 0, len(self._acl), self._acl[q] is old(self._acl[q]))")],
+         modifies=["self._acl[*]"], allocates=True)
